@@ -193,12 +193,22 @@ def check_consts(ctx, I):
     from dulwich.protocol import ZERO_SHA
     from dulwich.refs import LOCAL_BRANCH_PREFIX, LOCAL_TAG_PREFIX
     from breezy.revision import NULL_REVISION
+
+    def sset(items):
+        return ";".join(sorted(items))
     impl = " ".join([
         hx(I.mapping.ROOT_ID), hx(I.mapping.FILE_ID_PREFIX), hx(NULL_REVISION), hx(ZERO_SHA), hx(b"HEAD"),
         hx(LOCAL_BRANCH_PREFIX), hx(LOCAL_TAG_PREFIX),
-        ";".join(hx(k) for k in sorted(I.registry.keys(), key=lambda k: (len(k), k))),
-        ";".join(hx(s.encode()) for s in I.urls.KNOWN_GIT_SCHEMES), hx(b"branch"), hx(b"ref")])
-    ctx.diff([dict(kind="consts")], ["consts"], [impl], tie="T2 constants")
+        sset(hx(k) for k in I.registry.keys()),
+        sset(hx(s.encode()) for s in I.urls.KNOWN_GIT_SCHEMES), hx(b"branch"), hx(b"ref")])
+    f = ctx.model(["consts"])[0].split(" ")
+    if len(f) == 11:
+        f[7] = sset(f[7].split(";"))      # sets: order is not observable
+        f[8] = sset(f[8].split(";"))
+    model = " ".join(f)
+    ctx.traces += 1
+    if impl != model:
+        ctx.mismatch(dict(kind="consts"), impl, model, line="consts", tie="T2 constants")
     if I.urls.SCHEME_REPLACEMENT != {"ssh": "git+ssh"}:
         ctx.mismatch(dict(kind="consts"), repr(I.urls.SCHEME_REPLACEMENT), "{'ssh': 'git+ssh'}", tie="T2 constants")
 
@@ -711,6 +721,13 @@ def unhx(x):
     return b"" if x == "-" else bytes.fromhex(x)
 
 
+def safe_unescape(I, x):
+    try:
+        return I.urlutils.unescape(x)
+    except Exception:  # noqa: BLE001
+        return None
+
+
 def is_plain_path(loc):
     """a location without ':' (not a URL, not rsync-style), e.g. a local path"""
     return ":" not in loc
@@ -739,8 +756,8 @@ def oracle_url(ctx, I, loc, branch, ref, out):
     if url2 != base or got != want:
         if url2 == base and b2 is None and r2 is None and ",ref=" in out:
             fam = "url-ref-param-dropped"
-        elif url2 == base and r2 is None and b2 is not None and I.urlutils.unescape(b2) != b2 and \
-                eff(I, I.urlutils.unescape(b2), None) == want:
+        elif url2 == base and r2 is None and b2 is not None and safe_unescape(I, b2) not in (None, b2) and \
+                eff(I, safe_unescape(I, b2), None) == want:
             fam = "url-branch-left-escaped"
         elif out == loc and is_plain_path(loc):
             # neither a URL nor rsync-style: returned early, the branch/ref is not recorded at all
@@ -882,17 +899,27 @@ def canon_cfg_reply(rep):
                                                                e.replace("=", ".").split("."))))
 
 
-def run_parent_case(name, preremote, locs):
-    """set_parent(loc) for each loc in turn on branch `name`; returns observations"""
+def run_parent_case(name, preremote, locs, preseed=()):
+    """set_parent(loc) for each loc in turn on branch `name`; returns observations
+    (with no `locs`: one observation of the getter on the pre-seeded config)"""
     P = parent_env()
     from dulwich.config import ConfigFile
     with open(P["cfgpath"], "wb") as f:
         f.write(P["initial"])
-    if preremote is not None:
+    if preremote is not None or preseed:
         cf = ConfigFile.from_path(P["cfgpath"])
-        cf.set((b"branch", name.encode("utf-8")), b"remote", preremote)
+        if preremote is not None:
+            cf.set((b"branch", name.encode("utf-8")), b"remote", preremote)
+        for a, b, k, v in preseed:
+            cf.set((a, b), k, v)
         cf.write_to_path(P["cfgpath"])
     obs = []
+    if not locs:
+        after = read_cfg(P["cfgpath"])
+        br = P["wt"].controldir.open_branch(name=name)
+        ok2, got = call(br._get_parent_location)
+        ok3, full = call(br.get_parent)
+        return [dict(before=after, set="ok", after=after, get=got, get_ok=ok2, full=full, full_ok=ok3)]
     for loc in locs:
         before = read_cfg(P["cfgpath"])
         br = P["wt"].controldir.open_branch(name=name)
@@ -918,8 +945,8 @@ def parent_family(I, name, remote, loc, obs):
         return None
     merge = dict(((a, b, c), v) for a, b, c, v in obs["after"]).get((b"branch", name.encode("utf-8"), b"merge"))
     want = None
-    if "branch" in params:
-        want = I.refs.branch_name_to_ref(I.urlutils.unescape(params["branch"]))
+    if "branch" in params and safe_unescape(I, params["branch"]) is not None:
+        want = I.refs.branch_name_to_ref(safe_unescape(I, params["branch"]))
     elif "ref" in params:
         want = I.urlutils.unquote_to_bytes(params["ref"])
     if "revno" in params and "branch" not in params and merge == params["revno"].encode("utf-8"):
@@ -945,6 +972,11 @@ def degenerate_ref(I, loc):
         return eff(I, b, r.encode("utf-8") if isinstance(r, str) else r) == b"refs/heads/"
     except Exception:  # noqa: BLE001
         return False
+
+
+def comma_free_base(I, loc):
+    ok, r = call(lambda: I.urls.git_url_to_bzr_url(I.urlutils.split_segment_parameters(loc)[0]))
+    return ok and "," not in r
 
 
 def equivalent_urls(I, a, b):
@@ -1028,8 +1060,7 @@ def sec_parent(ctx, I):
         impl_get = ocps(o["get"]) if o["get_ok"] else o["get"]
         fam = parent_family(I, name, remote, loc, o)
         # --- oracle: a canonical URL is read back unchanged
-        if is_canon and o["set"] == "ok" and "," not in I.urls.git_url_to_bzr_url(
-                I.urlutils.split_segment_parameters(loc)[0]):
+        if is_canon and o["set"] == "ok" and comma_free_base(I, loc):
             if degenerate_ref(I, loc):
                 ctx.count("parent:degenerate-ref")
             elif not o["full_ok"] or not equivalent_urls(I, o["full"], loc):
@@ -1051,6 +1082,45 @@ def sec_parent(ctx, I):
                                   "[branch \"%s\"])" % (impl_get, m_get, remote.decode()), family="parent-merge-section")
             else:
                 ctx.mismatch(case, impl_get, m_get, line=lines[3 * i + 1])
+    # --- getter alone, on hand-written configs (entries set_parent never leaves behind)
+    go_lines, go_meta = [], []
+    for _ in range(ctx.pick(60, 600)):
+        name = ctx.rng.choice(P["names"])
+        nm = name.encode("utf-8")
+        remote = ctx.rng.choice([b"origin", b"origin", b"upstream"])
+        entries = []
+        if remote != b"origin" or ctx.rng.random() < 0.3:
+            entries.append((b"branch", nm, b"remote", remote))
+        if ctx.rng.random() < 0.85:
+            u, _ = gen_url_loc(ctx.rng, remote_only=True)
+            entries.append((b"remote", remote, b"url", u.encode("utf-8")))
+        for sec in (nm, remote, b"other"):
+            if ctx.rng.random() < 0.4:
+                entries.append((b"branch", sec, b"merge",
+                                ctx.rng.choice([b"HEAD", b"refs/heads/foo", b"refs/tags/v1", b"refs/heads/a/b",
+                                                b"refs/heads/" + "é".encode("utf-8")])))
+        o = run_parent_case(name, None, [], preseed=entries)[0]
+        cfg = cfg_str(o["after"])
+        go_lines += ["getp %s %s" % (cfg, cps(name)), "getpL %s %s" % (cfg, cps(name))]
+        go_meta.append((dict(kind="parent-get", name=js(name), entries=[[jb(x) for x in e] for e in entries]),
+                        name, remote, o))
+        ctx.case(["parent-get", js(name), [[jb(x) for x in e] for e in entries]])
+        ctx.count("parent:get-only:" + ("none" if o["get"] is None else "url"))
+    rep = ctx.model(go_lines)
+    for i, (case, name, remote, o) in enumerate(go_meta):
+        m_get, m_getL = rep[2 * i], rep[2 * i + 1]
+        ctx.traces += 1
+        impl_get = ocps(o["get"]) if o["get_ok"] else o["get"]
+        if impl_get != m_get:
+            if impl_get == m_getL and name.encode("utf-8") != remote:
+                ctx.count("parent:get:legacy")
+                ctx.violation(case, "_get_parent_location() = %s, expected %s: merge ref read from [branch \"%s\"] "
+                              "instead of [branch \"%s\"]" % (impl_get if impl_get.startswith(("E:", "~")) else
+                                                               uncps(impl_get), m_get if m_get.startswith(("E:", "~"))
+                                                               else uncps(m_get), remote.decode(), name),
+                              family="parent-merge-section")
+            else:
+                ctx.mismatch(case, impl_get, m_get, line=go_lines[2 * i])
     # --- oracle only: parents given as file: URLs (relative_url is not the identity)
     other = env.fresh_dir("parent")
     for name in ("master", "feat/x"):
@@ -1206,6 +1276,16 @@ def replay(ctx, case):
             if o["set"] == "ok" and (not o["full_ok"] or not equivalent_urls(I, o["full"], loc)):
                 ctx.violation(case, "branch %r: set_parent(%r) then get_parent() = %r" % (name, loc, o["full"]),
                               family=parent_family(I, name, pre if pre is not None else b"origin", loc, o))
+    elif k == "parent-get":
+        name = unjs(case["name"])
+        entries = [tuple(unjb(x) for x in e) for e in case["entries"]]
+        o = run_parent_case(name, None, [], preseed=entries)[0]
+        impl = dict(config=[tuple(x.decode("utf-8", "replace") for x in e) for e in o["after"]], get_parent=o["get"])
+        m = ctx.model(["getp %s %s" % (cfg_str(o["after"]), cps(name))])[0]
+        model = m if m.startswith(("E:", "~")) else uncps(m)
+        if (ocps(o["get"]) if o["get_ok"] else o["get"]) != m:
+            ctx.violation(case, "_get_parent_location() = %r, expected %r" % (o["get"], model),
+                          family="parent-merge-section")
     elif k == "parent-file":
         name, br_, rf = unjs(case["name"]), unjs(case["branch"]), unjb(case["ref"])
         other = env.fresh_dir("parent")
